@@ -264,6 +264,62 @@ func main() {
 			again = append(again, o)
 		}
 	}
+	// Conjunct splitting: an undecided goal of the form (and A B ..) or (=> P (and A B ..)) is re-tried one conjunct at
+	// a time under the same path condition (sound: every conjunct proved ⇒ the conjunction proved). Solvers often fail on
+	// the conjunction of several quantified facts that they prove separately at once.
+	{
+		var parts []*Obligation
+		parents := map[*Obligation][]*Obligation{}
+		for _, o := range again {
+			if o.Raw != "" || o.fv == nil {
+				continue
+			}
+			gs := splitGoal(o.Goal)
+			if len(gs) < 2 {
+				continue
+			}
+			for k, g := range gs {
+				c := &Obligation{Name: fmt.Sprintf("%s.c%d", o.Name, k+1), Kind: o.Kind, Func: o.Func, Text: o.Text, Pos: o.Pos, Props: o.Props,
+					PC: o.PC, Goal: g, NDecl: o.NDecl, fv: o.fv, Reveal: o.Reveal}
+				parts = append(parts, c)
+				parents[o] = append(parents[o], c)
+			}
+		}
+		if len(parts) > 0 {
+			failuresByFunc.Range(func(k, _ any) bool { failuresByFunc.Delete(k); return true })
+			Discharge(em, parts, dir, *timeout, *workers, *keep != "")
+			var still []*Obligation
+			for _, o := range again {
+				cs, ok := parents[o]
+				if !ok {
+					still = append(still, o)
+					continue
+				}
+				all, t := true, 0.0
+				for _, c := range cs {
+					t += c.Time
+					if c.Verdict != "DISCHARGED" {
+						all = false
+						if c.Verdict == "REFUTED" {
+							o.Verdict, o.Output = "REFUTED", c.Output
+						}
+					}
+				}
+				o.Time += t
+				if all {
+					o.Verdict, o.Solver = "DISCHARGED", fmt.Sprintf("split into %d conjuncts", len(cs))
+				} else {
+					still = append(still, o)
+				}
+			}
+			again = nil
+			for _, o := range still {
+				if o.Verdict == "UNDECIDED" {
+					again = append(again, o)
+				}
+			}
+		}
+	}
 	if n := len(again); n > 0 && n <= 24 {
 		for _, o := range again {
 			failuresByFunc.Delete(o.Func)
@@ -471,4 +527,44 @@ func writeEvidence(path, pid, tier string, seed int, results []*FuncResult, all 
 	data, _ := json.MarshalIndent(ev, "", " ")
 	os.MkdirAll(filepath.Dir(path), 0o755)
 	os.WriteFile(path, data, 0o644)
+}
+
+
+// splitGoal returns the top-level conjuncts of goal: (and ..) flattened, an implication distributes over its consequent.
+func splitGoal(goal string) []string {
+	root := parseSexp(goal)
+	if root == nil {
+		return nil
+	}
+	var conj func(s *sexp) []*sexp
+	conj = func(s *sexp) []*sexp {
+		if s.list != nil && len(s.list) > 1 && s.list[0].list == nil && s.list[0].atom == "and" {
+			var out []*sexp
+			for _, c := range s.list[1:] {
+				out = append(out, conj(c)...)
+			}
+			return out
+		}
+		return []*sexp{s}
+	}
+	var split func(s *sexp) []string
+	split = func(s *sexp) []string {
+		if s.list != nil && len(s.list) == 3 && s.list[0].list == nil && s.list[0].atom == "=>" {
+			var out []string
+			for _, c := range split(s.list[2]) {
+				out = append(out, "(=> "+s.list[1].String()+" "+c+")")
+			}
+			return out
+		}
+		var out []string
+		for _, c := range conj(s) {
+			if c.list != nil && len(c.list) == 3 && c.list[0].list == nil && c.list[0].atom == "=>" {
+				out = append(out, split(c)...)
+			} else {
+				out = append(out, c.String())
+			}
+		}
+		return out
+	}
+	return split(root)
 }
